@@ -18,7 +18,9 @@ jobs=[]
 for sha,props in fix_props.items(): jobs.append(('revert',sha,props))
 for d in sorted(glob.glob(f'{V}/seeded/*')):
     m=json.load(open(d+'/meta.json')); jobs.append(('seed',d,[m['breaks_property']]))
-extra={'C02b':['C12'],'C13b':['C12'],'C10b':['C04'],'C01b':['C05']}
+extra={'C02b':['C12'],'C13b':['C12'],'C10b':['C04'],'C01b':['C05'],'C02d':['C01'],'C01d':['C11'],'C10c':['C07'],'C08f':['C17'],'C08g':['C14'],'C10e':['C18'],'C18g':['C05']}
+for m in json.load(open(f'{V}/mutants/INDEX.json')):
+    if m['file'].startswith('own-'): jobs.append(('mutant',f"{V}/mutants/{m['file']}",m['property']))
 only=set(sys.argv[1:])
 keep_manual=glob.glob(f'{V}/regress/C08/manual-*.json')
 manual={os.path.basename(f):open(f).read() for f in keep_manual}
@@ -40,6 +42,9 @@ for kind,what,props in jobs:
             sh('git reset -q --hard HEAD','/repo')
             r=sh(f'git apply {V}/mutants/revert-{what}.diff','/repo')
         label=f'revert-{what}'
+    elif kind=='mutant':
+        r=sh(f'git apply {what}','/repo')
+        label='mutant-'+os.path.basename(what)[:-5]
     else:
         r=sh(f'git apply {what}/patch.diff','/repo')
         label='seed-'+os.path.basename(what)
